@@ -108,7 +108,10 @@ class SrvAdapter:
                             if t is not asyncio.current_task()]
                     if not pend:
                         break
-                    await asyncio.wait(pend, timeout=1)
+                    done, _p = await asyncio.wait(pend, timeout=1)
+                    for t in done:
+                        if not t.cancelled() and t.exception() is not None:
+                            self.bgexc.append(type(t.exception()).__name__)
                 return r
             return self.loop.run_until_complete(_w())
         return x
@@ -153,13 +156,20 @@ class SrvAdapter:
         self.hc = []             # handler calls of the current action
         self.cbs = []            # callback invocations of the current action
         self.flags = {'raiseDisc': []}
+        self.maxid = {}
         self.bg = []
+        self.bgexc = []
         self.wait_script = None
         self.call_results = []
         sio.eio.create_event = lambda *a, **k: HarnessEvent(self)
         if not self.is_async:
             def sbt(target, *a, **k):
-                th = threading.Thread(target=target, args=a, kwargs=k,
+                def guarded(*a, **k):
+                    try:
+                        return target(*a, **k)
+                    except Exception as e:
+                        self.bgexc.append(type(e).__name__)
+                th = threading.Thread(target=guarded, args=a, kwargs=k,
                                       daemon=True)
                 th.start()
                 self.bg.append(th)
@@ -313,7 +323,15 @@ class SrvAdapter:
             th.join(5)
         self.bg = []
 
+    def _track_owned(self):
+        tname = {e: t for t, e in self.eid.items()}
+        for ns, rs in self.sio.manager.rooms.items():
+            for sid, eid in (rs.get(None) or {}).items():
+                if eid in tname:
+                    self.owned[tname[eid]].add(sid)
+
     def _lose(self, t, reason):
+        self._track_owned()
         s = self.socks[t]
         self._run(s.close(wait=False, abort=True, reason=reason))
         # what engine.io's request handling does when it notices the end
@@ -330,6 +348,7 @@ class SrvAdapter:
         sio = self.sio
         self.hc = []
         self.cbs = []
+        self.bgexc = []
         del self.tap.seen[:]
         res = ['ok']
         act = a['act']
@@ -412,8 +431,11 @@ class SrvAdapter:
         except Exception as e:  # the API call raised
             res = ['exc', type(e).__name__]
         self._finish_bg()
+        self._track_owned()
         if self.tap.seen and res == ['ok']:
             res = ['contained'] + list(self.tap.seen)
+        if self.bgexc and res == ['ok']:
+            res = ['bgexc'] + list(self.bgexc)
         rset = []
         if act == 'Rooms' and res[0] == 'ok':
             rset = res[1:]
@@ -485,7 +507,7 @@ class SrvAdapter:
 
     def _bin_frame(self, a):
         if a['kind'] == 'hdr':
-            ptype = 5 if a['ty'] == 'EVENT' else 6
+            ptype = 5 if a['ty'] == 'BINARY_EVENT' else 6
             id = None if a['id'] < 0 else a['id']
             data = [{'_placeholder': True, 'num': i} for i in range(a['n'])]
             if ptype == 5:
@@ -497,7 +519,7 @@ class SrvAdapter:
                 text += str(id)
             import json
             return text + json.dumps(data, separators=(',', ':'))
-        return val('b1') if a.get('which', 1) == 1 else val('b2')
+        return val(a['b'])
 
     def _do_call(self, a):
         """sio.call() with a scripted world: what happens while it waits."""
@@ -564,7 +586,18 @@ class SrvAdapter:
                     frames.append(p.data)
             if frames:
                 pk[t] = [self._pkt_tok(p) for p in refcodec.read_frames(frames)]
+                for p in pk[t]:
+                    if p['ty'] in ('EVENT', 'BINARY_EVENT') and p['id'] >= 0:
+                        who = self._sid_name_of(t, p['ns'])
+                        self.maxid[who] = max(self.maxid.get(who, 0), p['id'])
         return pk
+
+    def _sid_name_of(self, t, ns):
+        members = self.sio.manager.rooms.get(ns, {}).get(None, {})
+        for sid, eid in members.items():
+            if eid == self.eid[t]:
+                return self._name(sid)
+        return '?nobody'
 
     def _pkt_tok(self, p):
         ty = p['type']
@@ -625,24 +658,20 @@ class SrvAdapter:
                 for sid, eid in members.items():
                     n = self._name(sid)
                     d[n] = tname.get(eid, '?' + str(eid))
-                    if eid in tname:
-                        self.owned[tname[eid]].add(sid)
                 rooms[ns][key] = d
         pending = {ns: sorted(self._name(s) for s in lst)
                    for ns, lst in m.pending_disconnect.items()}
         cb = {}
         for sid, d in m.callbacks.items():
-            cnt = d.get(0)
-            nxt = None
-            try:
-                # peek the counter without consuming it
-                nxt = int(repr(cnt)[len('count('):-1])
-            except Exception:
-                nxt = -1
-            cb[self._name(sid) if sid in self.names else self._room_tok(sid)] \
-                = {'next': nxt,
-                   'out': {str(k): getattr(v, 'tag', 'call')
-                           for k, v in d.items() if k != 0}}
+            n = self._name(sid) if sid in self.names else self._room_tok(sid)
+            # 'next' is observed (highest id seen on the wire for this client
+            # + 1), the outstanding set is whatever callable the manager holds
+            out = {str(k): getattr(v, 'tag', 'call')
+                   for k, v in d.items() if callable(v)}
+            hi = max([self.maxid.get(n, 0)] +
+                     [k for k, v in d.items()
+                      if callable(v) and isinstance(k, int)])
+            cb[n] = {'next': hi + 1, 'out': out}
         binbuf = {}
         for eid, p in sio._binary_packet.items():
             binbuf[tname.get(eid, '?' + str(eid))] = {
@@ -650,7 +679,10 @@ class SrvAdapter:
                     p.packet_type, int) and 0 <= p.packet_type < 7 else '?',
                 'ns': p.namespace or '/',
                 'id': -1 if p.id is None else p.id,
-                'owed': p.attachment_count, 'got': len(p.attachments)}
+                'ev': p.data[0] if p.packet_type == 5 and isinstance(
+                    p.data, list) and p.data and isinstance(p.data[0], str)
+                else '',
+                'owed': p.attachment_count, 'atts': toks(p.attachments)}
         sess = {}
         for t, s in self.socks.items():
             if t in self.closed:
@@ -681,6 +713,7 @@ class SrvAdapter:
         # these are projected explicitly (rooms, pending, cb, environ, binbuf);
         # the scan is for everything the model does NOT know about
         modelled = [m.rooms, m.pending_disconnect, m.callbacks,
+                    getattr(m, 'ack_counters', None),
                     self.sio.environ, self.sio._binary_packet]
         skip_types = (type, type(sys), logging.Logger, logging.Handler,
                       threading.Thread, asyncio.AbstractEventLoop)
